@@ -403,9 +403,28 @@ def writers(chk, repo):
     for m in repo.production_modules():
         for c in ast.walk(m.tree):
             if not (isinstance(c, ast.Call) and isinstance(
-                    c.func, ast.Attribute) and c.func.attr in (
-                        "append", "append_writer") and c.args):
+                    c.func, ast.Attribute) and c.args):
                 continue
+            if c.func.attr not in ("append", "append_writer"):
+                # any other method of the packet that is handed a command:
+                # it counts as what it forwards the command to
+                sp_ = repo.cls(C + "SterilePacket")
+                own_, h_ = repo.lookup(sp_, c.func.attr)
+                if not isinstance(h_, FUNC) or not (dotted(c.args[0])
+                                                    or "").startswith(
+                                                        "ECCmd."):
+                    continue
+                p0 = param_names(h_)[1:2]
+                fw = [x for x in calls_in(h_) if isinstance(
+                    x.func, ast.Attribute) and x.func.attr in (
+                        "append", "append_writer") and x.args and p0
+                    and isinstance(x.args[0], ast.Name)
+                    and x.args[0].id == p0[0]]
+                if len(fw) != 1:
+                    continue
+                via = fw[0].func.attr
+            else:
+                via = c.func.attr
             cmd = dotted(c.args[0]) or ""
             if not cmd.startswith("ECCmd."):
                 continue
@@ -423,7 +442,7 @@ def writers(chk, repo):
                 continue
             n += 1
             w = cmd.split(".")[1] in WRITE_CMDS
-            ok = (c.func.attr == "append_writer") == w
+            ok = (via == "append_writer") == w
             chk.ob("R21.6", func_qual(repo, c), f"{cmd} datagram added "
                    f"through {'append_writer' if w else 'append'}", ok, c,
                    "a write datagram that is not a registered writer stays "
@@ -431,3 +450,40 @@ def writers(chk, repo):
                    "selectively nor checked by the group program" if w else
                    "read datagrams are never disabled")
     chk.floor("R21.6", "datagrams added to sterile packets", n, 6)
+    # reader and writer of the frame's identification agree: the
+    # dispatcher reads the whole index field Packet.assemble writes
+    import struct as _struct
+    pk = repo.cls("ebpfcat.ethercat.Packet")
+    asm = pk.methods.get("assemble")
+    ex = repo.cls(C + "EtherXDP")
+    a0 = ex.attrs.get("addr0")
+    b = match("XDPPacketVar($pos, $fmt)", a0) if a0 is not None else None
+    hdr = [str_const(x.args[0]) for x in calls_in(asm) if dotted(x.func)
+           == "pack" and x.args and str_const(x.args[0]) and len(
+               x.args) > 6] if asm is not None else []
+    ev_ = Evaluator(repo, pk.module, pk)
+    try:
+        eth, pix = ev_.class_attr(pk, "ETHERNET_HEADER"), ev_.class_attr(
+            pk, "PACKET_INDEX")
+    except Unknown:
+        eth = pix = None
+    ok = False
+    why = "index field not found"
+    if b is not None and hdr and isinstance(eth, int):
+        h = hdr[0]
+        body = h.lstrip("<>!=@")
+        off, width = None, None
+        for i, ch in enumerate(body):
+            if _struct.calcsize("<" + body[:i]) == pix:
+                off, width = pix, _struct.calcsize("<" + ch)
+                break
+        fmt = str_const(b["fmt"])
+        ok = off is not None and int_const(b["pos"]) == eth + off and \
+            fmt is not None and _struct.calcsize("<" + fmt[-1]) == width
+        why = (f"the index is the {width}-byte field at {eth}+{off} of the "
+               f"frame; addr0 is read as {fmt!r} at "
+               f"{int_const(b['pos'])}")
+    chk.ob("R21.5", ex.qualname, "the dispatcher reads the whole frame "
+           "index", ok, a0 if a0 is not None else ex.node, why + ": with a "
+           "narrower read, ordinary frames whose index has small low bits "
+           "are dispatched to a fast group's program")
